@@ -2,10 +2,12 @@ import XrlC13.Lemmas.Witness
 import XrlC13.Lemmas.Metric
 import XrlC13.Lemmas.Sums
 import XrlC13.Lemmas.ComplexForm
+import XrlC13.Lemmas.MeetsSpec
 /-!
 # C13 — crystal diffraction results obey Bragg's law and structure-factor algebra
 
-Every theorem is about the hand model `Hand/CrystalNum.lean` of the numeric half of src/crystal_diffraction.c, read over
+Every theorem is about the hand model `Hand/CrystalNum.lean` of the numeric half of src/crystal_diffraction.c (which
+Props/C13g.lean proves equal, function by function and for every input, to the machine translation of the working tree's C source), read over
 ℝ, for **every** crystal record (cell, stored volume, atom list of any length), Miller triple, energy, Debye factor,
 relative angle, flag triple, error slot, and **every** behaviour of the elemental functions `FF_Rayl, Fi, Fii`
 (parameter `P : Elem ℝ`; hypotheses say what is assumed of them: `Gives` = "answers this value and leaves the slot
@@ -31,7 +33,7 @@ are converted with `DEGRAD`; nothing below depends on their numeric value except
 namespace Xrl
 namespace C13
 open Xrl.Spec (Returns Fails Meets Expect)
-open Spec (Returns2 Fails2)
+open Spec (Returns2 Fails2 Meets2)
 
 /-! ## Cell volume -/
 
@@ -60,6 +62,23 @@ theorem volume_degenerate_nf (cc : Crystal ℝ) (error : Slot) (h : detC cc < 0)
 
 example : Returns (Crystal_UnitCellVolume (some cube) Slot.empty) (Spec.volume cube) Slot.empty :=
   volume_formula cube Slot.empty (good_nonDegenerate cube_valid.good)
+
+/-- the cell volume meets its executable specification: NULL → an error; non-degenerate cell → `√(det G)` -/
+theorem volume_meets_spec (cr : Option (Crystal ℝ)) (error : Slot) (he : error.isFull = false) :
+    Meets (Crystal_UnitCellVolume cr error) error (Spec.expectVolume cr) := by
+  cases cr with
+  | none => exact volume_null_fails error he
+  | some cc =>
+    unfold Spec.expectVolume
+    by_cases h : Spec.nonDegenerate cc
+    · simp only [h, if_true]; exact volume_formula cc error h
+    · simp only [h, if_false]; trivial
+
+example : Meets (Crystal_UnitCellVolume (some cube) Slot.empty) Slot.empty (Spec.expectVolume (some cube)) ∧
+    Spec.expectVolume (some cube) = .value (Spec.volume cube) :=
+  ⟨volume_meets_spec (some cube) Slot.empty rfl, by
+    have h : Spec.nonDegenerate cube := good_nonDegenerate cube_valid.good
+    simp only [Spec.expectVolume, h, if_true]⟩
 
 /-! ## d-spacing -/
 
@@ -256,6 +275,137 @@ example : Bragg_angle asIs (some cube) 1 1 0 0 Slot.empty = .error (.nf "asin") 
 example : Fails (Bragg_angle repaired (some cube) 1 1 0 0 Slot.empty) Slot.empty :=
   bragg_no_reflection_fixed repaired rfl (some cube) 1 1 0 0 Slot.empty _ one_pos rfl
     (dSpacing_valid repaired cube_valid Slot.empty (Or.inl rfl) (by decide)) cube_dval.1 cube_no_reflection
+
+/-- **Bragg's law or an error** (executable specification `expectBraggAt`, repair C13-1 in): `E ≤ 0`, NULL crystal, (0,0,0)
+→ an error; with `d` the spacing `Crystal_dSpacing` reports for the same crystal and indices: `hc/E > 2d` → an error, otherwise
+`θ = asin((hc/E)/(2d))` -/
+theorem bragg_meets_spec (v : Variant) (hv : v.braggFix = true) (cr : Option (Crystal ℝ)) (E : ℝ) (i j k : Int) (error : Slot)
+    (he : error.isFull = false) (hs : SafeMiller v i j k) (d : Option ℝ)
+    (hd : ∀ x, d = some x → Crystal_dSpacing v cr i j k Slot.null = .ok (x, Slot.null)) :
+    Meets (Bragg_angle v cr E i j k error) error (Spec.expectBraggAt cr d E i j k) := by
+  unfold Spec.expectBraggAt
+  by_cases hE : E ≤ 0
+  · simp only [lit0, hE, if_true]
+    exact bragg_nonpositive_energy_fails v cr E i j k error he hE
+  · have hE' : 0 < E := lt_of_not_ge hE
+    simp only [lit0, hE, if_false]
+    cases cr with
+    | none =>
+      exact ⟨⟨XRL_ERROR_INVALID_ARGUMENT, CRYSTAL_NULL⟩, by decide, by decide,
+        by rw [bragg_of_dspacing_zero v none hE' (dspacing_null_zero v i j k he)]; simp⟩
+    | some cc =>
+      by_cases h0 : i = 0 ∧ j = 0 ∧ k = 0
+      · obtain ⟨rfl, rfl, rfl⟩ := h0
+        simp only [and_self, if_true]
+        exact ⟨⟨XRL_ERROR_INVALID_ARGUMENT, INVALID_MILLER⟩, by decide, by decide,
+          by rw [bragg_of_dspacing_zero v (some cc) hE' (dspacing_000_zero v cc he)]; simp⟩
+      · simp only [h0, if_false]
+        cases d with
+        | none => trivial
+        | some x =>
+          have hx := dSpacing_slot v cc hs h0 (hd x rfl) error
+          unfold Spec.expectBragg
+          simp only [lit0, lit1, lit2, hE, if_false]
+          by_cases hx0 : x ≤ 0
+          · simp only [hx0, if_true]; trivial
+          · have hxp : 0 < x := lt_of_not_ge hx0
+            simp only [hx0, if_false]
+            have hsp : 0 < braggSin E x := by unfold braggSin; have := KEV2ANGST_pos; positivity
+            rw [show KEV2ANGST / E / (2 * x) = braggSin E x from rfl]
+            by_cases h1 : 1 < braggSin E x
+            · simp only [h1, if_true]
+              have hna : ¬ |braggSin E x| ≤ 1 := by rw [abs_of_pos hsp]; exact not_le.mpr h1
+              refine ⟨⟨XRL_ERROR_INVALID_ARGUMENT, NO_REFLECTION⟩, by decide, by decide, ?_⟩
+              rw [bragg_of_dspacing v (some cc) hE' hx hxp.ne']
+              simp only [hv, if_true, hna, if_false, setErr_notFull he]
+              simp [Except.bind]
+            · simp only [h1, if_false]
+              have ha : |braggSin E x| ≤ 1 := by rw [abs_of_pos hsp]; exact not_lt.mp h1
+              show Bragg_angle v (some cc) E i j k error = .ok (XNum.asin (braggSin E x), error)
+              rw [bragg_of_dspacing v (some cc) hE' hx hxp.ne']
+              simp only [hv, if_true, ha, xasin]
+
+
+
+/-- at 10 keV the unit cube reflects on (1,0,0): the specification demands the angle, and the (repaired) model returns it -/
+example : ∃ θ, Spec.expectBraggAt (some cube) (some (dval cube 1 0 0)) (10 : ℝ) 1 0 0 = .value θ ∧
+    Bragg_angle repaired (some cube) 10 1 0 0 Slot.empty = .ok (θ, Slot.empty) := by
+  have hm := bragg_meets_spec repaired rfl (some cube) 10 1 0 0 Slot.empty rfl (Or.inl rfl) (some (dval cube 1 0 0))
+    (fun x hx => by injection hx with hx; subst hx; exact dSpacing_valid repaired cube_valid Slot.null (Or.inl rfl) (by decide))
+  have hd1 := cube_dval_ge_one
+  have hk : (KEV2ANGST : ℝ) / 10 / (2 * dval cube 1 0 0) ≤ 1 := by
+    rw [div_le_one (by positivity)]; unfold KEV2ANGST; norm_num; linarith
+  have hx : Spec.expectBraggAt (some cube) (some (dval cube 1 0 0)) (10 : ℝ) 1 0 0 =
+      .value (XNum.asin (KEV2ANGST / 10 / (2 * dval cube 1 0 0))) := by
+    unfold Spec.expectBraggAt Spec.expectBragg
+    have h1 : ¬ ((10 : ℝ) ≤ 0) := by norm_num
+    have h2 : ¬ (dval cube 1 0 0 ≤ 0) := by linarith
+    have h3 : ¬ (1 < (KEV2ANGST : ℝ) / 10 / (2 * dval cube 1 0 0)) := not_lt.mpr hk
+    simp [h1, h2, h3]
+  rw [hx] at hm ⊢
+  exact ⟨_, rfl, hm⟩
+
+/-! ## `Q_scattering_amplitude` -/
+
+/-- **`Q = sin(rel_angle · θ_B) / λ`**, `λ = hc/E`: whatever `Bragg_angle` answers for the same arguments (angle `θ_B`, slot
+`e'`), for every relative angle -/
+theorem q_sin_over_lambda (v : Variant) (cr : Option (Crystal ℝ)) (E : ℝ) (i j k : Int) (rel : ℝ) (error e' : Slot) (θ : ℝ)
+    (hE : 0 < E) (h0 : ¬ (i = 0 ∧ j = 0 ∧ k = 0)) (hb : Bragg_angle v cr E i j k error = .ok (θ, e')) :
+    Q_scattering_amplitude v cr E i j k rel error = .ok (Real.sin (rel * θ) / (KEV2ANGST / E), e') := by
+  rw [q_of_bragg v cr hE h0, hb]
+  show Except.ok (E * Real.sin (rel * θ) / KEV2ANGST, e') = _
+  have hk := KEV2ANGST_ne
+  congr 2
+  field_simp
+
+/-- `Q` meets its executable specification `expectQAt`: `E ≤ 0` → an error; (0,0,0) → 0 for every crystal pointer; otherwise
+`sin(rel·θ_B)/λ` with the Bragg angle of the specification, an error when there is no reflection / no crystal -/
+theorem q_meets_spec (v : Variant) (hv : v.braggFix = true) (cr : Option (Crystal ℝ)) (E : ℝ) (i j k : Int) (rel : ℝ) (error : Slot)
+    (he : error.isFull = false) (hs : SafeMiller v i j k) (d : Option ℝ)
+    (hd : ∀ x, d = some x → Crystal_dSpacing v cr i j k Slot.null = .ok (x, Slot.null)) :
+    Meets (Q_scattering_amplitude v cr E i j k rel error) error (Spec.expectQAt cr d E i j k rel) := by
+  unfold Spec.expectQAt
+  by_cases hE : E ≤ 0
+  · simp only [lit0, hE, if_true]
+    rw [q_nonpos v cr hE, setErr_notFull he]
+    exact ⟨⟨XRL_ERROR_INVALID_ARGUMENT, NEGATIVE_ENERGY⟩, by decide, by decide, by simp [Except.bind]⟩
+  · have hE' : 0 < E := lt_of_not_ge hE
+    simp only [lit0, hE, if_false]
+    by_cases h0 : i = 0 ∧ j = 0 ∧ k = 0
+    · obtain ⟨rfl, rfl, rfl⟩ := h0
+      simp only [and_self, if_true]
+      exact q_zero_miller v cr hE' rel error
+    · simp only [h0, if_false]
+      have hb := bragg_meets_spec v hv cr E i j k error he hs d hd
+      generalize Spec.expectBraggAt cr d E i j k = x at hb
+      cases x with
+      | any => trivial
+      | fails =>
+        obtain ⟨e, e1, e2, h⟩ := hb
+        refine ⟨e, e1, e2, ?_⟩
+        rw [q_of_bragg v cr hE' h0, h]
+        show Except.ok (E * Real.sin (rel * (0.0 : ℝ)) / KEV2ANGST, error.withErr e) = _
+        simp
+      | value th =>
+        have h : Bragg_angle v cr E i j k error = .ok (th, error) := hb
+        unfold Spec.expectQ
+        simp only [lit0, hE, if_false, h0]
+        exact q_sin_over_lambda v cr E i j k rel error error th hE' h0 h
+
+example : ∃ θ, Q_scattering_amplitude asIs (some cube) 10 1 0 0 0.5 Slot.empty =
+    .ok (Real.sin (0.5 * θ) / (KEV2ANGST / 10), Slot.empty) := by
+  have hr : KEV2ANGST / 10 ≤ 2 * dval cube 1 0 0 := by
+    have := cube_dval_ge_one; unfold KEV2ANGST; norm_num; linarith
+  exact ⟨_, q_sin_over_lambda asIs (some cube) 10 1 0 0 0.5 Slot.empty Slot.empty _ (by norm_num) (by decide)
+    (bragg_valid asIs cube_valid (by norm_num) (Or.inr cube_smallMiller) (by decide) hr Slot.empty)⟩
+
+example : Meets (Q_scattering_amplitude repaired (some cube) 10 0 0 0 1.7 Slot.empty) Slot.empty (.value 0.0) := by
+  have := q_meets_spec repaired rfl (some cube) 10 0 0 0 1.7 Slot.empty rfl (Or.inl rfl) none (fun x hx => by cases hx)
+  have hx : Spec.expectQAt (some cube) none (10 : ℝ) 0 0 0 1.7 = .value 0.0 := by
+    unfold Spec.expectQAt
+    have h1 : ¬ ((10 : ℝ) ≤ 0) := by norm_num
+    simp [h1]
+  rwa [hx] at this
 
 /-! ## Atomic factors -/
 
@@ -566,6 +716,182 @@ example : Fails2 (Crystal_F_H_StructureFactor_Partial repaired P0 none 8 0 0 0 1
 theorem fh_is_partial_222 (v : Variant) (P : Elem ℝ) (cr : Option (Crystal ℝ)) (E : ℝ) (i j k : Int) (D rel : ℝ) (error : Slot) :
     Crystal_F_H_StructureFactor v P cr E i j k D rel error =
       Crystal_F_H_StructureFactor_Partial v P cr E i j k D rel 2 2 2 error := rfl
+
+/-! ## the structure factor meets its executable specification -/
+
+/-- **structure factor vs the executable specification** (repairs C13-2, C13-3, C13-4 in).  `qx`: what is expected of
+`Q_scattering_amplitude` for the same arguments (`q_meets_spec`); `rep Z`: what the elemental functions report for element
+`Z` at that `q` and energy (`RepOf`: a value with the slot untouched, or a failure per their C03 contract); an atom whose
+`Zatom` is no legal subscript has no complete report (no element beyond the tables — a fact about the data, hypothesis).
+Then: NULL crystal, `E ≤ 0`, `Q` fails → `(0,0)` and exactly one error; no atoms → `(0,0)`; a non-positive Debye factor, an
+element with an unavailable factor, an invalid flag → `(0,0)` and exactly one error; otherwise the explicit sum. -/
+theorem fh_meets_spec (v : Variant) (hz : v.zFix = true) (hn : v.nullFix = true) (hzero : v.zeroFix = true)
+    (P : Elem ℝ) (cr : Option (Crystal ℝ)) (E D rel : ℝ) (i j k a b c : Int) (error : Slot) (he : error.isFull = false)
+    (qx : Expect ℝ) (hq : Meets (Q_scattering_amplitude v cr E i j k rel Slot.empty) Slot.empty qx)
+    (rep : Int → Option (Spec.Reported ℝ))
+    (hrep : ∀ q, qx = .value q → ∀ cc, cr = some cc → ∀ atom ∈ cc.atoms,
+      ∃ r, rep atom.Zatom = some r ∧ RepOf P E q atom.Zatom r ∧ (r.full → 0 ≤ atom.Zatom ∧ atom.Zatom < 120)) :
+    Meets2 (Crystal_F_H_StructureFactor_Partial v P cr E i j k D rel a b c error) error
+      (Spec.expectFH cr qx E D i j k a b c rep) := by
+  -- when Q fails the function stores Q's error and returns (0,0)
+  have qfail : ∀ e : Err, e.msg ≠ "" → e.code ≤ XRL_ERROR_RUNTIME →
+      Q_scattering_amplitude v cr E i j k rel Slot.empty = .ok ((0.0 : ℝ), Slot.empty.withErr e) →
+      Fails2 (Crystal_F_H_StructureFactor_Partial v P cr E i j k D rel a b c error) error := by
+    intro e e1 e2 h
+    refine ⟨e, e1, e2, ?_⟩
+    unfold Crystal_F_H_StructureFactor_Partial
+    simp only [h, bind_ok, Slot.withErr, Slot.isFull, if_true, propagate_full he]
+    rfl
+  cases cr with
+  | none =>
+    show Fails2 _ _
+    by_cases hE : E ≤ 0
+    · have hq' := q_nonpos v none hE i j k rel Slot.empty
+      exact qfail ⟨XRL_ERROR_INVALID_ARGUMENT, NEGATIVE_ENERGY⟩ (by decide) (by decide) (by rw [hq']; simp [setErr, Except.bind, Slot.withErr])
+    · have hE' : 0 < E := lt_of_not_ge hE
+      by_cases h0 : i = 0 ∧ j = 0 ∧ k = 0
+      · obtain ⟨rfl, rfl, rfl⟩ := h0
+        exact fh_null_fixed v hn P E D rel a b c error hE' he
+      · have hb : Bragg_angle v none E i j k Slot.empty = .ok (0, Slot.empty.withErr ⟨XRL_ERROR_INVALID_ARGUMENT, CRYSTAL_NULL⟩) :=
+          bragg_of_dspacing_zero v none hE' (dspacing_null_zero v i j k rfl)
+        refine qfail ⟨XRL_ERROR_INVALID_ARGUMENT, CRYSTAL_NULL⟩ (by decide) (by decide) ?_
+        rw [q_of_bragg v none hE' h0, hb]
+        show Except.ok (E * Real.sin (rel * 0) / KEV2ANGST, _) = _
+        simp
+  | some cc =>
+    unfold Spec.expectFH
+    by_cases hE : E ≤ 0
+    · simp only [lit0, hE, if_true]
+      have hq' := q_nonpos v (some cc) hE i j k rel Slot.empty
+      exact qfail ⟨XRL_ERROR_INVALID_ARGUMENT, NEGATIVE_ENERGY⟩ (by decide) (by decide) (by rw [hq']; simp [setErr, Except.bind, Slot.withErr])
+    · simp only [lit0, hE, if_false]
+      cases qx with
+      | any => trivial
+      | fails =>
+        obtain ⟨e, e1, e2, h⟩ := hq
+        exact qfail e e1 e2 h
+      | value q =>
+        have hQ : Q_scattering_amplitude v (some cc) E i j k rel Slot.empty = .ok (q, Slot.empty) := hq
+        have hat := hrep q rfl cc rfl
+        simp only
+        by_cases hem : cc.atoms.isEmpty = true
+        · simp only [hem, if_true]
+          have hnil : cc.atoms = [] := List.isEmpty_iff.mp hem
+          have := fh_invalid_flags_no_atoms v P cc E q D rel i j k a b c error hnil hQ
+          show _ = _
+          rw [this]; simp
+        · simp only [hem, Bool.false_eq_true, if_false]
+          obtain ⟨atom, rest, hcc⟩ : ∃ atom rest, cc.atoms = atom :: rest := by
+            cases hl : cc.atoms with
+            | nil => simp [hl] at hem
+            | cons x xs => exact ⟨x, xs, rfl⟩
+          by_cases hD : D ≤ 0
+          · simp only [hD, if_true]
+            -- the first atom: an illegal subscript, or the Debye factor is rejected
+            unfold Crystal_F_H_StructureFactor_Partial
+            simp only [hQ, bind_ok, Slot.isFull, Bool.false_eq_true, if_false, hcc]
+            rw [fillCache]
+            by_cases hZ : 0 ≤ atom.Zatom ∧ atom.Zatom < 120
+            · refine ⟨⟨XRL_ERROR_INVALID_ARGUMENT, NEGATIVE_DEBYE_FACTOR⟩, by decide, by decide, ?_⟩
+              simp only [hZ, and_self, if_true, Cache.empty, Option.isSome_none, Bool.false_eq_true, if_false,
+                atomic_factors_debye_fails v P atom.Zatom E q D true true true error he hD, bind_ok, pure_eq_ok]
+            · refine ⟨⟨XRL_ERROR_INVALID_ARGUMENT, Z_OUT_OF_RANGE⟩, by decide, by decide, ?_⟩
+              simp only [hZ, if_false, hz, if_true, setErr_notFull he, bind_ok, pure_eq_ok]
+          · have hD' : 0 < D := lt_of_not_ge hD
+            simp only [hD, if_false]
+            have hrepo : ∀ x ∈ cc.atoms, ∃ r, rep x.Zatom = some r ∧ RepOf P E q x.Zatom r :=
+              fun x hx => let ⟨r, h1, h2, _⟩ := hat x hx; ⟨r, h1, h2⟩
+            split_ifs with hall
+            · -- every element completely reported, valid flags: the explicit sum
+              simp only [List.all_eq_true, List.mem_map, forall_exists_index, and_imp, forall_apply_eq_imp_iff₂] at hall
+              have hfl : validFlags a b c := by
+                by_contra hfl
+                have h1 := hall atom (by rw [hcc]; exact List.mem_cons_self)
+                obtain ⟨r, hrz, _⟩ := hat atom (by rw [hcc]; exact List.mem_cons_self)
+                rw [hrz] at h1; simp only [factorOf_invalid hfl D r] at h1; exact absurd h1 (by simp)
+              have hfull : ∀ x ∈ cc.atoms, ∃ r, rep x.Zatom = some r ∧ r.full := by
+                intro x hx
+                obtain ⟨r, hrz, _⟩ := hat x hx
+                refine ⟨r, hrz, ?_⟩
+                by_contra hnf
+                have h1 := hall x hx
+                rw [hrz] at h1; simp only [factorOf_notfull D a b c hnf] at h1; exact absurd h1 (by simp)
+              have hat' : ∀ x ∈ cc.atoms, (0 ≤ x.Zatom ∧ x.Zatom < 120) ∧ Reports v P E q D (repF rep) x.Zatom := by
+                intro x hx
+                obtain ⟨r, hrz, hr, hrange⟩ := hat x hx
+                obtain ⟨r', hrz', hf⟩ := hfull x hx
+                rw [hrz] at hrz'; injection hrz' with hrz'; subst hrz'
+                exact ⟨hrange hf, repOf_reports v hzero hrz hr hf⟩
+              show _ = _
+              rw [fh_eval v P cc error hQ hD' hfl (repF rep) hat']
+              congr 2
+              unfold Spec.structureFactor
+              apply sumFrom_congr
+              intro x hx
+              obtain ⟨r, hrz, hf⟩ := hfull x hx
+              simp only [hrz, factorOf_full hfl D hrz hf, Option.getD_some]
+            · -- some element incompletely reported, or an invalid flag: exactly one error
+              have hgood : ¬ (validFlags a b c ∧ ∀ x ∈ cc.atoms, ∃ r, rep x.Zatom = some r ∧ r.full) := by
+                rintro ⟨hfl, hfull⟩
+                apply hall
+                simp only [List.all_eq_true, List.mem_map, forall_exists_index, and_imp, forall_apply_eq_imp_iff₂]
+                intro x hx
+                obtain ⟨r, hrz, hf⟩ := hfull x hx
+                rw [hrz]; simp only [factorOf_full hfl D hrz hf, Option.isSome_some]
+              show Fails2 _ _
+              by_cases hfl : validFlags a b c
+              · have hbad : ∃ x ∈ cc.atoms, BadAtom rep x := by
+                  by_contra hno
+                  apply hgood
+                  refine ⟨hfl, fun x hx => ?_⟩
+                  obtain ⟨r, hrz, _⟩ := hat x hx
+                  refine ⟨r, hrz, ?_⟩
+                  by_contra hnf
+                  exact hno ⟨x, hx, Or.inr ⟨r, hrz, hnf⟩⟩
+                obtain ⟨e, e1, e2, h⟩ := fillCache_fails v hz hzero P hD' hfl rep he cc.atoms Cache.empty hrepo
+                  (by intro Z hZ; simp [Cache.empty] at hZ) hbad
+                refine ⟨e, e1, e2, ?_⟩
+                unfold Crystal_F_H_StructureFactor_Partial
+                simp only [hQ, bind_ok, Slot.isFull, Bool.false_eq_true, if_false, h, pure_eq_ok]
+              · -- invalid flags: detected while the first atom is processed
+                obtain ⟨r, hrz, hr, hrange⟩ := hat atom (by rw [hcc]; exact List.mem_cons_self)
+                by_cases hf : r.full
+                · exact fh_invalid_flags v P cc E q D rel i j k a b c error (repF rep) atom rest hcc hQ hD' hfl he (hrange hf)
+                    (repOf_reports v hzero hrz hr hf)
+                · unfold Crystal_F_H_StructureFactor_Partial
+                  simp only [hQ, bind_ok, Slot.isFull, Bool.false_eq_true, if_false, hcc]
+                  rw [fillCache]
+                  by_cases hZ : 0 ≤ atom.Zatom ∧ atom.Zatom < 120
+                  · obtain ⟨e, e1, e2, x, y, z, h⟩ := atomic_factors_fails v hzero P atom.Zatom hD' hr hf he
+                    refine ⟨e, e1, e2, ?_⟩
+                    simp only [hZ, and_self, if_true, Cache.empty, Option.isSome_none, Bool.false_eq_true, if_false, h, bind_ok,
+                      pure_eq_ok]
+                  · refine ⟨⟨XRL_ERROR_INVALID_ARGUMENT, Z_OUT_OF_RANGE⟩, by decide, by decide, ?_⟩
+                    simp only [hZ, if_false, hz, if_true, setErr_notFull he, bind_ok, pure_eq_ok]
+
+
+/-- what `P0` reports, as the driver hands it to the specification -/
+def rep0 : Int → Option (Spec.Reported ℝ) := fun Z => some ⟨some (Z : ℝ), some 1, some 1⟩
+
+example : ∃ F, Spec.expectFH (some cube) (.value (qval cube 10 1 0 0 1)) 10 1 1 0 0 2 2 2 rep0 = .value F ∧
+    Crystal_F_H_StructureFactor_Partial repaired P0 (some cube) 10 1 0 0 1 1 2 2 2 Slot.empty = .ok (F, Slot.empty) := by
+  have hm := fh_meets_spec repaired rfl rfl rfl P0 (some cube) 10 1 1 1 0 0 2 2 2 Slot.empty rfl
+    (.value (qval cube 10 1 0 0 1)) (cube_hQ repaired) rep0
+    (by
+      intro q _ cc hcc atom hat
+      injection hcc with hcc; subst hcc
+      simp only [cube, List.mem_singleton] at hat
+      subst hat
+      exact ⟨_, rfl, ⟨fun _ => rfl, fun _ => rfl, fun _ => rfl⟩, fun _ => by decide⟩)
+  have hx : ∃ F, Spec.expectFH (some cube) (.value (qval cube 10 1 0 0 1)) (10 : ℝ) 1 1 0 0 2 2 2 rep0 = .value F := by
+    unfold Spec.expectFH
+    have h1 : ¬ ((10 : ℝ) ≤ 0.0) := by norm_num
+    have h2 : ¬ ((1 : ℝ) ≤ 0.0) := by norm_num
+    simp only [h1, h2, if_false]
+    exact ⟨_, by simp [cube, rep0, Spec.factorOf, Spec.atomicFactor, Spec.term]; rfl⟩
+  obtain ⟨F, hF⟩ := hx
+  rw [hF] at hm
+  exact ⟨F, hF, hm⟩
 
 /-! ## `c_abs`, `c_mul` -/
 
